@@ -31,7 +31,7 @@ MISSING = re.compile(r'not found in tensor_name_to_qsv|min and max must be provi
 def cases(draw, tier):
   mspec = draw(G.model_specs(max_nodes=10 if tier == 'thorough' else 6,
                              max_subgraphs=3, reuse_const=False,
-                             ops=[o for o in G.ALL_OPS]))
+                             ops=[o for o in G.ALL_OPS] + ['CONSTVIEW']))   # constants as data operands of RESHAPE/TRANSPOSE
   names = engine.op_out_names(mspec)
   pool = R.STATIC_CFGS * 3 + R.FLOAT_COMPUTE_CFGS + [(R.FLOATCAST, R.FP16)] * 3
   rules = draw(R.rules_for(names, engine.ops_present(mspec), max_rules=4,
